@@ -8,17 +8,38 @@ WRITE = "io::peppi::ser::write"
 READ = "io::peppi::de::read"
 
 
+def append_helpers(F):
+    """local functions that append one entry to a tar builder: (path, index of the data arg, index of the name arg)"""
+    out = {}
+    for b in F.fn_bodies():
+        if not b["path"].startswith("io::peppi::"):
+            continue
+        for n in tir.walk(b["tir"]["value"]):
+            if n.get("k") == "MethodCall" and (declared(n) or "").startswith("tar::Builder::<W>::append"):
+                params = [p.get("name") for p in b["tir"]["params"]]
+                data = tir.place(n["args"][1]) if len(n["args"]) > 1 else None
+                namei = None
+                for x in tir.walk(b["tir"]["value"]):
+                    if x.get("k") == "MethodCall" and (declared(x) or "").startswith("tar::Header::set_path"):
+                        namei = tir.place(x["args"][0])
+                if data in params and namei in params:
+                    out[b["path"]] = (params.index(data), params.index(namei))
+    return out
+
+
 def writer_entries(F):
     """[(name, guard or None, payload expr node, call node)] in emission order"""
     b = F.body(WRITE)
     out = []
     if b is None:
         return out
-    for g, c in flow.ordered_calls(b["tir"]["value"], lambda n: (n.get("path") or "").endswith("io::peppi::ser::tar_append")):
-        name = strip(c["args"][2])
+    helpers = append_helpers(F)
+    for g, c in flow.ordered_calls(b["tir"]["value"], lambda n: n.get("k") == "Call" and (n.get("path") or "") in helpers):
+        di, ni = helpers[c["path"]]
+        name = strip(c["args"][ni])
         nm = name.get("v") if name.get("k") == "Lit" and name.get("lit") == "str" else None
         gs = [x for x in g if x[0] != "closure"]
-        out.append({"name": nm, "guards": gs, "payload": c["args"][1], "call": c})
+        out.append({"name": nm, "guards": gs, "payload": c["args"][di], "call": c})
     return out
 
 
